@@ -401,10 +401,6 @@ SYM_DTYPE = _SymDType()
 class SArr(np.ndarray):
     """object ndarray whose .astype(float) does not force concretisation"""
 
-    @property
-    def dtype(self):
-        d = np.ndarray.dtype.__get__(self)
-        return SYM_DTYPE if d == np.dtype(object) else d
 
     @property
     def ctypes(self):
